@@ -139,6 +139,16 @@ CHECKS = {
              "domains, id maps, types, flags, matrices, unified rankings/dataset, all projections) equal the model; for the rate filter "
              "the solver proves 'removed <=> presence/m < t' over each path's threshold region.",
         design="4/C16"),
+    "C18": dict(
+        technique="merge-mode bounded symbolic execution of parse_ranking_with_ties with a bounded symbolic string model (views on a "
+                  "buffer of symbolic code points; strip/split/find/slice with CPython semantics); z3 discharges unwinding, index and "
+                  "round-trip obligations",
+        text="Totality: for every string of length <= 9 (thorough 12) over code points 0..127 every raise reached is a ValueError, string "
+             "indices are in range and both loops exit within the bound; round trip: for 240 templates rendered like str(Ranking) (both "
+             "notations, name prefix, surrounding whitespace, <= 3 buckets x 2 elements of 1-3 symbolic characters) the parser returns "
+             "exactly the template's buckets; the string model is compared with CPython on random strings on every run. File round trip "
+             "(Dataset.write / from_file) is outside the claim.",
+        design="4/C18"),
     "C20": dict(
         technique="merge-mode bounded symbolic execution of the six Markov moves and the two step functions as an inductive step "
                   "(any vector satisfying the dense-numbering invariant, symbolic element, arbitrary random draw) + fork-mode "
@@ -151,9 +161,6 @@ CHECKS = {
 
 NOT_YET = "check not built yet in this session (see DESIGN.md section 8 for the build order)"
 NA = {
-    "C18": "the hand-written scanner needs a bounded symbolic string model (strip/split/find/slice with symbolic bounds, guarded "
-           "iteration, exceptions) that is not built; the packaged engine (CrossHair) returned 'Not confirmed' at 120-200 s on "
-           "strings of length <= 4 (DESIGN.md 1.2)",
     "C17": "Dataset equality turns on CPython set iteration order under hash collisions; every available engine concretises at "
            "hashing, so no input dimension can be left to a solver (DESIGN.md section 5)",
 }
